@@ -43,6 +43,17 @@ CONTEXTS = [
     ("poke", ["10 POKE {n},{n}"]),
     ("loop", ["10 Z=Z+{n}:N=N+1:IF N<2 THEN 10"]),
     ("loop-if", ["10 N=N+1:IF {n}+N<9 THEN IF N<2 THEN 10"]),
+    # the statement before, on the same line, changes what the arguments read: a call hoisted too far up sees the old values
+    ("after-argument-changed:on", ["10 B=B+2:A=A+1:ON {n} GOTO 20,30,20,30", "15 Z=5:END", "20 Z=1:END", "30 Z=2"]),
+    ("after-argument-changed:on", ["10 A=A+1:B=B+2:ON {n} GOTO 20,30,20,30", "15 Z=5:END", "20 Z=1:END", "30 Z=2"]),
+    ("after-argument-changed:on-gosub", ["10 B=B+2:A=A+1:ON {n} GOSUB 20,30,20,30:Z=Z+5:END", "20 Z=1:RETURN", "30 Z=2:RETURN"]),
+    ("after-argument-changed:if", ["10 B=B+2:A=A+1:IF {n}>1 THEN Z=1 ELSE Z=2"]),
+    ("after-argument-changed:if", ["10 A=A+1:B=B+2:IF {n}>1 THEN Z=1 ELSE Z=2"]),
+    ("after-argument-changed:for", ["10 B=B+2:A=A+1:FOR I=1 TO {n}:Z=Z+1:NEXT"]),
+    ("after-argument-changed:print", ["10 A=A+1:A$=A$+\"X\":PRINT {n};{s}", "20 A$=A$+\"X\":A=A+1:PRINT {n};{s}"]),
+    ("after-argument-changed:let", ["10 B=B+2:A=A+1:Z={n}", "20 A$=A$+\"X\":Z$={s}", "30 A=A+1:B=B+2:Y={n}"]),
+    ("after-argument-changed:device", ["10 B=B+2:A=A+1:SOUND {n},{n}"]),
+    ("after-argument-changed:read", ["7 DIM C(9)", "8 DATA 5,6", "10 B=B+2:A=A+1:READ C({n}),Z"]),
     ("builtin", ["10 Z=ABS({n})+LEN({s})"]),
     ("builtin-str", ["10 Z$=LEFT$({s},{n})+MID$({s},{n},1)"]),
 ]
